@@ -71,6 +71,14 @@ def ofDatabaseTuple (C : Crypto) (prev sig chash : Bytes) (content : Option Byte
   | none => ofHash prev chash sig
   | some c => ((ofHash prev chash sig).receiveContent C c).1
 
+/-- Token.__init__(previous_token_hash, content, content_hash, ..., signature): exactly one of content /
+    content_hash may be given (`none` = RuntimeError "Specify either content or content_hash!") -/
+def init (C : Crypto) (prev : Bytes) (content chash : Option Bytes) (sig : Bytes) : Option Token :=
+  match content, chash with
+  | some c, none => some (ofContent C prev c sig)
+  | none, some h => some (ofHash prev h sig)
+  | _, _ => none
+
 /-- Token.create(previous_token, content, private_key), the signature being what the key produced -/
 def create (C : Crypto) (previous : Token) (content sig : Bytes) : Token :=
   ofContent C (previous.id C) content sig
@@ -211,7 +219,7 @@ def missing (tr : Tree) : List Bytes := tr.unc.map (·.prev)
 def walk (C : Crypto) (g : Bytes) (els : List Token) : Nat → Token → Option (List Token)
   | 0, _ => none
   | n + 1, cur =>
-    if !cur.valid C then none
+    if !(cur.chash.length == g.length && cur.valid C) then none
     else if cur.prev == g then some [cur]
     else match lookup C els cur.prev with
       | none => none
@@ -329,5 +337,57 @@ def runWorld (K : Keyed) (w : List View) (evs : List (Nat × Token)) : List View
 /-- the tokens that were offered to view `i`, in order -/
 def offeredTo (i : Nat) (evs : List (Nat × Token)) : List Token :=
   (evs.filter (fun e => e.1 == i)).map (·.2)
+
+/-! ### persistence: identity/manager.py PseudonymManager on top of identity/database.py
+
+  The manager keeps a tree and a table of stored tokens.  Tokens are stored when (and only when) they have become
+  ELEMENTS (`add_credential`, `store_new_tokens` after `substantiate`); a restart builds a new tree whose elements are
+  the stored rows (`self.tree.elements[token.get_hash()] = token`, no check, nothing waiting). -/
+
+structure Pseudo where
+  tree : Tree
+  db : List Token           -- table Tokens, rows of this key (INSERT OR IGNORE: a second copy changes nothing)
+
+def Pseudo.fresh : Pseudo := ⟨Tree.empty, []⟩
+
+def dbInsert (db : List Token) (t : Token) : List Token :=
+  if db.any (fun x => x.core == t.core) then db else db ++ [t]
+
+/-- store_new_tokens(known): every element whose hash was not known before -/
+def Pseudo.storeNew (C : Crypto) (p : Pseudo) (known : List Bytes) : Pseudo :=
+  { p with db := (p.tree.els.filter (fun t => !(known.contains (t.id C)))).foldl dbInsert p.db }
+
+/-- IdentityManager.substantiate, token part: unserialize_public into the tree, then store what entered -/
+def Pseudo.substantiate (C : Crypto) (g : Bytes) (cap : Nat) (p : Pseudo) (s : Bytes) : Pseudo :=
+  let known := p.tree.els.map (fun t => t.id C)
+  Pseudo.storeNew C { p with tree := (unserializePublic C g cap p.tree s).1 } known
+
+/-- PseudonymManager.add_credential, token part -/
+def Pseudo.addCredential (C : Crypto) (g : Bytes) (cap : Nat) (p : Pseudo) (t : Token) : Pseudo :=
+  let known := p.tree.els.map (fun t => t.id C)
+  if (gatherKind C g p.tree t).isSome then
+    Pseudo.storeNew C { tree := gather C g cap p.tree t, db := dbInsert p.db t } (t.id C :: known)
+  else { p with tree := gather C g cap p.tree t }
+
+/-- a new PseudonymManager on the same database: the rows become the elements, nothing waits -/
+def Pseudo.restart (C : Crypto) (p : Pseudo) : Pseudo :=
+  { tree := ⟨p.db.foldl (fun els t => dictSet C els (Token.ofDatabaseTuple C t.prev t.sig t.chash t.content)) [], []⟩,
+    db := p.db }
+
+inductive PEvent
+  | substantiate (s : Bytes)
+  | credential (t : Token)
+  | restart
+
+def Pseudo.step (C : Crypto) (g : Bytes) (cap : Nat) (p : Pseudo) : PEvent → Pseudo
+  | .substantiate s => p.substantiate C g cap s
+  | .credential t => p.addCredential C g cap t
+  | .restart => p.restart C
+
+/-- the tokens an event offers to the tree -/
+def PEvent.offers (sigLen : Nat) : PEvent → List Token
+  | .substantiate s => (parseChunks sigLen s).1
+  | .credential t => [t]
+  | .restart => []
 
 end Ipv8.C16
